@@ -4,6 +4,8 @@ import operator
 import os
 import random
 import sys
+import types
+import warnings
 from collections import Counter, OrderedDict, namedtuple
 
 from harness import pyobjs
@@ -43,8 +45,35 @@ SCALARS = [None, True, False, 0, 1, 7, -3, 'x', 'abc', '']
 
 
 # ------------------------------------------------------------------ class catalogue
+# Every class below is access-logging: reading a public attribute appends the instance to
+# pyobjs.ACCESS_LOG before anything else happens (property, __getattr__ and namedtuple-field
+# reads included), a subscription does too (before __missing__ runs).  The plain builtins, the
+# real collections.Counter, the plain namedtuple PtN and pyobjs.Obj / Obj2 stay unlogged.
+RAISED = []          # every exception object raised by catalogue code (hooks, handlers), in order
+
+
+def _log_attr(self, name):
+    if not name.startswith('_'):
+        pyobjs.ACCESS_LOG.append(self)
+    return object.__getattribute__(self, name)
+
+
+def _logging_getitem(base):
+    def __getitem__(self, k):
+        pyobjs.ACCESS_LOG.append(self)
+        return base.__getitem__(self, k)
+    return __getitem__
+
+
+def _throw(exc):
+    RAISED.append(exc)
+    raise exc
+
+
 class Rec:
     """plain attribute object; the Rec family is what handlers get registered for"""
+    __getattribute__ = _log_attr
+
     def __init__(self, **kw):
         self.__dict__.update(kw)
 
@@ -66,12 +95,26 @@ class RowM(Mix, Row):
     pass
 
 
-Pt = namedtuple('Pt', ['a', 'b'])
-Pt1 = namedtuple('Pt1', ['k0'])
+PtN = namedtuple('PtN', ['a', 'b'])
+PtBase = namedtuple('PtBase', ['a', 'b'])
+Pt1Base = namedtuple('Pt1Base', ['k0'])
+
+
+class Pt(PtBase):
+    __slots__ = ()
+    __getattribute__ = _log_attr
+    __getitem__ = _logging_getitem(tuple)
+
+
+class Pt1(Pt1Base):
+    __slots__ = ()
+    __getattribute__ = _log_attr
+    __getitem__ = _logging_getitem(tuple)
 
 
 class Slots:
     __slots__ = ('a', 'b', 'c')
+    __getattribute__ = _log_attr
 
 
 class SlotsFb(Slots):
@@ -83,11 +126,12 @@ class SlotsFb(Slots):
 
 def _raise(cls):
     def f(self):
-        raise cls('catalogue property')
+        _throw(cls('catalogue property'))
     return f
 
 
 class Prop:
+    __getattribute__ = _log_attr
     pa = property(_raise(AttributeError))
     pv = property(_raise(ValueError))
     pc = property(lambda self: 7)
@@ -100,28 +144,46 @@ class PropFb(Prop):
 
 
 class Fb:
+    __getattribute__ = _log_attr
+
     def __getattr__(self, name):
         return object.__getattribute__(self, '_tab')[name]
 
 
 class FbVal:
+    __getattribute__ = _log_attr
+
     def __getattr__(self, name):
-        raise ValueError(name)
+        _throw(ValueError(name))
 
 
 class DMissEcho(dict):
+    __getattribute__ = _log_attr
+    __getitem__ = _logging_getitem(dict)
+
     def __missing__(self, key):
         return key
 
 
 class DMissVal(dict):
+    __getattribute__ = _log_attr
+    __getitem__ = _logging_getitem(dict)
+
     def __missing__(self, key):
-        raise ValueError(key)
+        _throw(ValueError(key))
 
 
 class DMissKey(dict):
+    __getattribute__ = _log_attr
+    __getitem__ = _logging_getitem(dict)
+
     def __missing__(self, key):
-        raise KeyError(key)
+        _throw(KeyError(key))
+
+
+class CounterL(Counter):
+    __getattribute__ = _log_attr
+    __getitem__ = _logging_getitem(Counter)
 
 
 class Boom(Exception):
@@ -145,11 +207,13 @@ DECL = {
     'DMissKey': {'missing': {'raises': 'KeyError'}},
     'Counter': {'missing': {'const': {'i': 0}}},
 }
+LOGA_FUNCS = (_log_attr, pyobjs._log_attr, pyobjs.LObj.__getattribute__)
 
-NEW_CLASSES = [Rec, Row, Row2, Mix, RowM, Pt, Pt1, Slots, SlotsFb, Prop, PropFb, Fb, FbVal,
-               DMissEcho, DMissVal, DMissKey, Counter]
+NEW_CLASSES = [Rec, Row, Row2, Mix, RowM, Pt, Pt1, PtN, Slots, SlotsFb, Prop, PropFb, Fb, FbVal,
+               DMissEcho, DMissVal, DMissKey, Counter, CounterL]
 CLASSES = dict(pyobjs.CLASSES)
 CLASSES.update({c.__name__: c for c in NEW_CLASSES})
+INFO_ONLY = {c.__name__: c for c in [PtBase, Pt1Base]}      # bases that are never instantiated
 BUILTIN_REG = {'object': object, 'dict': dict, 'list': list, 'tuple': tuple, 'OrderedDict': OrderedDict,
                'int': int, 'str': str}
 EXCS = {c.__name__: c for c in [KeyError, IndexError, AttributeError, TypeError, ValueError, RuntimeError,
@@ -192,6 +256,26 @@ def eff_mro(cls):
     return names + duck + ['object']
 
 
+def attr_kind(cls, x, n):
+    """how instance x reaches the attribute n of cls's own __dict__ — the same rule as
+    extract/facts/c01.py applies to the builtin classes"""
+    raw = vars(cls)[n]
+    v = getattr(x, n)
+    if isinstance(v, (types.MethodType, types.BuiltinMethodType, types.MethodWrapperType)):
+        slf = v.__self__
+        if slf is x:
+            return ('method', '')
+        if isinstance(slf, type):
+            if isinstance(raw, classmethod) or type(raw).__name__ == 'classmethod_descriptor':
+                return ('clsmethod', '')
+            return ('static', slf.__name__)
+    if n == '__class__' and v is type(x):
+        return ('class', '')
+    if v is raw or (isinstance(raw, staticmethod) and v is raw.__func__):
+        return ('const', '')
+    return ('computed', '')
+
+
 def cls_info(cls):
     decl = DECL.get(cls.__name__, {})
     own = vars(cls)
@@ -209,9 +293,14 @@ def cls_info(cls):
             getattr(x, n)
         except Exception:
             continue
-        attrs.append(n)
+        k, extra = attr_kind(cls, x, n)
+        attrs.append([n, k, extra])
+    log_a = type(x).__getattribute__ in LOGA_FUNCS
+    log_i = any('__getitem__' in vars(k) for k in cls.__mro__
+                if k.__name__ in CLASSES and k.__module__ != 'builtins' and k not in (OrderedDict, Counter))
     return {'fields': fields, 'props': props, 'attrs': attrs,
-            'fallback': decl.get('fallback'), 'missing': decl.get('missing')}
+            'fallback': decl.get('fallback'), 'missing': decl.get('missing'),
+            'logA': bool(log_a), 'logI': bool(log_i)}
 
 
 _TABLES = {}
@@ -220,8 +309,9 @@ _TABLES = {}
 def tables():
     if not _TABLES:
         _TABLES['classes'] = [[n, eff_mro(c)] for n, c in CLASSES.items()]
-        _TABLES['info'] = [[n, cls_info(c)] for n, c in CLASSES.items()
+        _TABLES['info'] = [[n, cls_info(c)] for n, c in list(CLASSES.items()) + list(INFO_ONLY.items())
                            if c not in (dict, list, tuple, set, frozenset, OrderedDict)]
+        del pyobjs.ACCESS_LOG[:]
         _TABLES['excs'] = [[n, [k.__name__ for k in c.__mro__]] for n, c in EXCS.items()
                            if c in (Boom, BoomKey)]
         _TABLES['mro'] = {n: m for n, m in _TABLES['classes']}
@@ -242,8 +332,8 @@ def jval(v):
 
 # ------------------------------------------------------------------ heap generation
 class HeapGen:
-    def __init__(self, rng, logging, maxdepth, fancy):
-        self.rng, self.logging, self.maxdepth, self.fancy = rng, logging, maxdepth, fancy
+    def __init__(self, rng, logging, maxdepth, fancy, star=False):
+        self.rng, self.logging, self.maxdepth, self.fancy, self.star = rng, logging, maxdepth, fancy, star
         self.heap = []
         self.open_mut = []   # addresses of mutable ancestors (cycle targets)
         self.closed = []     # completed cells (sharing targets)
@@ -255,13 +345,13 @@ class HeapGen:
         f = self.fancy
         if lay == 'dict':
             return r.choice(['dict', 'dict', 'OrderedDict'] +
-                            (['Counter', 'DMissEcho', 'DMissVal', 'DMissKey'] if f else []))
+                            (['Counter', 'CounterL', 'DMissEcho', 'DMissVal', 'DMissKey'] if f else []))
         if lay == 'inst':
             return r.choice(['Obj', 'Obj', 'Obj2'] +
                             (['Rec', 'Row', 'Row', 'Row2', 'RowM', 'Slots', 'SlotsFb', 'Prop', 'PropFb',
                               'Fb', 'FbVal'] if f else []))
         if lay == 'tuple' and f:
-            return r.choice(['tuple', 'tuple', 'Pt', 'Pt1'])
+            return r.choice(['tuple', 'tuple', 'Pt', 'Pt1', 'PtN'])
         return lay
 
     def node(self, depth):
@@ -277,7 +367,7 @@ class HeapGen:
                        else ['dict', 'dict', 'list', 'tuple', 'inst'])
         n = r.choice([0, 1, 2, 2, 3])
         cname = self.cls(lay)
-        if cname == 'Pt':
+        if cname in ('Pt', 'PtN'):
             n = 2
         elif cname == 'Pt1':
             n = 1
@@ -293,7 +383,7 @@ class HeapGen:
         if mutable:
             self.open_mut.append(a)
         if lay == 'dict':
-            keys = r.sample(NAMES + [0, 1, '0', '1', '-1', 'x y'], n)
+            keys = r.sample(NAMES + [0, 1, '0', '1', '-1', 'x y'] + (['*', '**'] if self.star else []), n)
             cell['v'] = [[jval(k), self.node(depth + 1)] for k in keys]
         elif lay == 'inst':
             pool = ['a', 'b', 'c'] if cname in ('Slots', 'SlotsFb') else NAMES
@@ -319,8 +409,8 @@ class HeapGen:
         return {'r': a}
 
 
-def gen_target(rng, logging, maxdepth, fancy=False):
-    g = HeapGen(rng, logging, maxdepth, fancy)
+def gen_target(rng, logging, maxdepth, fancy=False, star=False):
+    g = HeapGen(rng, logging, maxdepth, fancy, star)
     root = g.node(0)
     return g.heap, root
 
@@ -433,7 +523,7 @@ def text_ok(kind, key):
     if 'i' in key:
         return True
     s = key.get('s')
-    return isinstance(s, str) and '.' not in s and s not in ('*', '**')
+    return isinstance(s, str) and '.' not in s
 
 
 def seg_text(kind, key):
@@ -442,7 +532,7 @@ def seg_text(kind, key):
     return key['s']
 
 
-BAD_SEGS = [{'s': 'zz'}, {'s': '99'}, {'s': '-99'}, {'s': 'x'}, {'i': 99}, {'i': -99}, {'s': ''},
+BAD_SEGS = [{'s': '*'}, {'s': '**'}, {'s': 'zz'}, {'s': '99'}, {'s': '-99'}, {'s': 'x'}, {'i': 99}, {'i': -99}, {'s': ''},
             None, {'b': True}, {'s': '1.5'}, {'s': '+1'}, {'s': '0'}, {'i': 0}, {'s': '_tab'}, {'s': 'pa'},
             {'s': 'pv'}, {'s': 'pc'}, {'s': 'ps'}, {'b': False}]
 CLS_ATTRS = ['__class__', '__doc__', 'keys', 'items', 'get', 'append', 'count', 'index', 'upper', 'real',
@@ -494,6 +584,29 @@ def int_spelling(rng, i):
     return s
 
 
+def nest_parts(rng, parts, depth=0):
+    """regroup a flat part list: consecutive T parts merged into one multi-step T expression,
+    runs of parts wrapped into nested Path(...) parts (also as the first part, also empty ones)"""
+    out = []
+    k = 0
+    while k < len(parts):
+        p = parts[k]
+        if 't' in p and out and 't' in out[-1] and rng.random() < 0.4:
+            out[-1] = {'t': out[-1]['t'] + p['t']}
+            k += 1
+            continue
+        if depth < 2 and rng.random() < 0.22:
+            n = rng.randint(0, min(3, len(parts) - k))
+            out.append({'path': nest_parts(rng, parts[k:k + n], depth + 1)})
+            k += n
+            continue
+        out.append(p)
+        k += 1
+    if depth < 2 and rng.random() < 0.08:
+        out.insert(rng.randint(0, len(out)), {'path': []})
+    return out
+
+
 def make_parts(rng, steps, style, heap_classes):
     """steps: [(kind, key, hn)] -> spelling dict; hn = handler the generator expects in force"""
     if style == 'text':
@@ -518,6 +631,8 @@ def make_parts(rng, steps, style, heap_classes):
                 parts.append({'t': [key]})
             else:
                 parts.append({'t': [['[', key]]})
+    if rng.random() < 0.5:
+        parts = nest_parts(rng, parts)
     return {'parts': parts}
 
 
@@ -731,9 +846,12 @@ def generate(rng, tier, scale, **focus):
         logging = rng.random() < 0.2
         fancy = (not logging) and rng.random() < 0.7
         with_regs = rng.random() < 0.45
-        heap, root = gen_target(rng, logging, rng.choice([2, 3, 4, 5]), fancy)
+        star_off = rng.random() < 0.12          # glom.core.PATH_STAR = False: '*' is a plain segment
+        heap, root = gen_target(rng, logging, rng.choice([2, 3, 4, 5]), fancy, star_off)
         events = gen_events(rng, heap, root, maxlen, with_regs)
         c = dict(base)
+        if star_off:
+            c['star'] = False
         c.update({'heap': heap, 'events': events, 'logging': logging,
                   'glommer': with_regs or rng.random() < 0.3})
         if with_regs and rng.random() < 0.12:
@@ -914,42 +1032,121 @@ def handler_fn(h):
         cls = EXCS[h['raises']]
 
         def raiser(obj, name):
-            raise cls(name)
+            _throw(cls(name))
         return raiser
     raise ValueError(h)
 
 
-def build_spec(sp, dv):
+def build_part(p, dv):
     from glom import Path, T
+    if 'seg' in p:
+        return dv(p['seg'])
+    if 'path' in p:
+        return Path(*[build_part(q, dv) for q in p['path']])
+    t = T
+    for op, arg in p['t']:
+        a = dv(arg)
+        if op == '.':
+            t = t.__(a[2:]) if a.startswith('__') else getattr(t, a)
+        else:
+            t = t[a]
+    return t
+
+
+def build_spec(sp, dv):
+    from glom import Path
     if 'text' in sp:
         return sp['text']
-    parts = []
-    for p in sp['parts']:
+    return Path(*[build_part(p, dv) for p in sp['parts']])
+
+
+def flat_steps(sp, dv, star=True):
+    """[(op, arg)] of a spelling, computed here without glom: a dotted string is split on '.',
+    a nested Path contributes the steps of its parts"""
+    if 'text' in sp:
+        return [('P', seg) for seg in sp['text'].split('.')]
+    out = []
+
+    def go(p):
         if 'seg' in p:
-            parts.append(dv(p['seg']))
+            out.append(('P', dv(p['seg'])))
+        elif 'path' in p:
+            for q in p['path']:
+                go(q)
         else:
-            t = T
             for op, arg in p['t']:
-                a = dv(arg)
-                if op == '.':
-                    t = t.__(a[2:]) if a.startswith('__') else getattr(t, a)
-                else:
-                    t = t[a]
-            parts.append(t)
-    return Path(*parts)
+                out.append((op, dv(arg)))
+    for p in sp['parts']:
+        go(p)
+    return out
 
 
-def enc_result(res, ids):
-    if id(res) in ids:
-        return {'r': ids[id(res)]}
-    if res is None or isinstance(res, (bool, int, str)):
-        return jval(res)
-    return {'sent': 'opaque'}
+def recv_key(v, ids):
+    if id(v) in ids and not isinstance(v, (bool, int, str, type(None))):
+        return 'r%d' % ids[id(v)]
+    if v is None:
+        return 'n'
+    if isinstance(v, bool):
+        return 'b1' if v else 'b0'
+    if isinstance(v, int):
+        return 'i%d' % v
+    if isinstance(v, str):
+        return 's' + v
+    return '?'
+
+
+_KNOWN = []
+
+
+def known_classes():
+    if not _KNOWN:
+        _KNOWN.extend(list(CLASSES.values()) + list(INFO_ONLY.values()) +
+                      [object, str, int, bool, type(None)])
+    return _KNOWN
+
+
+def identity_tokens(v, ids, name):
+    """which class attributes the returned object *is*: the bound method of which receiver, the
+    classmethod of which class, the very object stored under `name` in which class's __dict__"""
+    toks = []
+    if isinstance(v, type):
+        toks.append('ty|' + v.__name__)
+    elif isinstance(v, (types.MethodType, types.BuiltinMethodType, types.MethodWrapperType)):
+        slf = v.__self__
+        for nm in {getattr(v, '__name__', None), name}:
+            if not isinstance(nm, str):
+                continue
+            # v is the method stored under nm, bound to slf (looked up without logging)
+            try:
+                same = (type.__getattribute__(slf, nm) if isinstance(slf, type)
+                        else object.__getattribute__(slf, nm)) == v
+            except Exception:
+                same = False
+            if same:
+                toks.append(('cm|%s|%s' % (slf.__name__, nm)) if isinstance(slf, type)
+                            else ('bm|%s|%s' % (recv_key(slf, ids), nm)))
+    if isinstance(name, str):
+        for cls in known_classes():
+            raw = vars(cls).get(name, RAISED)          # RAISED: a value no class stores
+            if raw is v or (isinstance(raw, staticmethod) and raw.__func__ is v):
+                toks.append('ca|%s|%s' % (cls.__name__, name))
+    return toks
+
+
+def enc_result(res, ids, name):
+    if id(res) in ids and not isinstance(res, (bool, int, str, type(None))):
+        val = {'r': ids[id(res)]}
+    elif res is None or isinstance(res, (bool, int, str)):
+        val = jval(res)
+    else:
+        val = {'sent': 'opaque'}
+    return {'ok': val, 'toks': identity_tokens(res, ids, name)}
 
 
 def run_impl(case):
     import glom
-    from glom import GlomError, PathAccessError
+    import glom.core
+    from glom import GlomError, Path, PathAccessError
     objs, dv = decode(case['heap'])
     ids = {}
     for a, o in enumerate(objs):
@@ -958,48 +1155,80 @@ def run_impl(case):
     if case.get('glommer') or case.get('defaults') is False or any('reg' in e for e in case['events']):
         glommer = glom.Glommer() if case.get('defaults', True) else glom.Glommer(register_default_types=False)
     call = glommer.glom if glommer is not None else glom.glom
+    star = case.get('star', True)
     out = dict(case)
     impl = []
-    for ev in case['events']:
-        if 'reg' in ev:
-            r = ev['reg']
-            cls = CLASSES.get(r['cls']) or BUILTIN_REG[r['cls']]
-            kw = {}
-            if r['get'] is not None:
-                kw['get'] = handler_fn(r['get'])
-            if r['exact']:
-                kw['exact'] = True
-            glommer.register(cls, **kw)
-            continue
-        g = ev['glom']
-        target = dv(g['target'])
-        spec = build_spec(g['spelling'], dv)
-        del pyobjs.ACCESS_LOG[:]
-        try:
-            res = call(target, spec)
-        except PathAccessError as e:
-            obs = {'pae': {'idx': e.part_idx, 'exc': exc_name(e.exc),
+    saved_star = glom.core.PATH_STAR
+    glom.core.PATH_STAR = star
+    try:
+        for ev in case['events']:
+            if 'reg' in ev:
+                r = ev['reg']
+                cls = CLASSES.get(r['cls']) or BUILTIN_REG[r['cls']]
+                kw = {}
+                if r['get'] is not None:
+                    kw['get'] = handler_fn(r['get'])
+                if r['exact']:
+                    kw['exact'] = True
+                glommer.register(cls, **kw)
+                continue
+            g = ev['glom']
+            target = dv(g['target'])
+            with warnings.catch_warnings():
+                warnings.simplefilter('ignore')
+                spec = build_spec(g['spelling'], dv)
+                steps = flat_steps(g['spelling'], dv, star)
+                del pyobjs.ACCESS_LOG[:]
+                del RAISED[:]
+                try:
+                    res = call(target, spec)
+                except PathAccessError as e:
+                    x = e.exc
+                    # the carried exception was raised (a fresh copy has no traceback); where the
+                    # catalogue raised one of this class and args, it is that very object
+                    exc_ok = isinstance(x, BaseException) and x.__traceback__ is not None
+                    cands = [r for r in RAISED if type(r) is type(x) and r.args == x.args]
+                    if cands:
+                        exc_ok = exc_ok and any(r is x for r in cands)
+                    # e.path is the path of the spec: its steps are the spelling's
+                    try:
+                        path_ok = isinstance(e.path, Path) and list(e.path.items()) == steps
+                    except Exception:
+                        path_ok = False
+                    pae = {'idx': e.part_idx, 'exc': exc_name(x),
                            'glom': isinstance(e, GlomError), 'key': isinstance(e, KeyError),
-                           'index': isinstance(e, IndexError), 'attr': isinstance(e, AttributeError)}}
-        except Exception as e:
-            obs = {'other': exc_name(e)}
-        else:
-            obs = {'ok': enc_result(res, ids)}
-        log = [ids.get(id(o)) for o in pyobjs.ACCESS_LOG]
-        del pyobjs.ACCESS_LOG[:]
-        impl.append({'obs': obs, 'touched': log if case.get('logging') and None not in log else None})
+                           'index': isinstance(e, IndexError), 'attr': isinstance(e, AttributeError),
+                           'exc_ok': bool(exc_ok), 'path_ok': bool(path_ok)}
+                    args = getattr(x, 'args', None)
+                    if isinstance(args, tuple) and len(args) == 1 and \
+                            (args[0] is None or isinstance(args[0], (bool, int, str))):
+                        pae['arg'] = jval(args[0])
+                    obs = {'pae': pae}
+                except Exception as e:
+                    obs = {'other': exc_name(e)}
+                else:
+                    obs = enc_result(res, ids, steps[-1][1] if steps else None)
+            log = [ids.get(id(o)) for o in pyobjs.ACCESS_LOG]
+            del pyobjs.ACCESS_LOG[:]
+            if None in log:
+                raise RuntimeError('an object outside the heap was logged')
+            impl.append({'obs': obs, 'log': log})
+    finally:
+        glom.core.PATH_STAR = saved_star
     out['impl'] = impl
     return out
 
 
 def key(case):
-    return {'heap': case['heap'], 'events': case['events'], 'defaults': case.get('defaults', True)}
+    return {'heap': case['heap'], 'events': case['events'], 'defaults': case.get('defaults', True),
+            'star': case.get('star', True)}
 
 
 def path_len(sp):
     if 'text' in sp:
         return len(sp['text'].split('.'))
-    return sum(1 if 'seg' in p else len(p['t']) for p in sp['parts'])
+    return sum(1 if 'seg' in p else len(p['t']) if 't' in p else path_len({'parts': p['path']})
+               for p in sp['parts'])
 
 
 def nontrivial(case, verdict):
